@@ -83,11 +83,11 @@ Variable D : desc.
 Definition enum_nonempty (e : enumd) : Prop :=
   match e with Enum _ _ _ values _ _ => values <> [] end.
 
-(* split names of enums are not names of messages or of real oneofs *)
+(* split names of enums are not names of messages or of real (non-synthetic) oneofs *)
 Definition enum_keys_apart : Prop :=
   forall e m, In e (d_enums D) -> In m (d_msgs D) ->
     enum_key e <> msg_key m /\
-    forall o, In o (m_oneofs m) -> match o with Oneof name _ _ _ _ => enum_key e <> oneof_key m name end.
+    forall o, In o (m_oneofs m) -> match o with Oneof name _ syn _ _ => syn = false -> enum_key e <> oneof_key m name end.
 
 Definition wf_total : Prop :=
   (forall e, In e (d_enums D) -> enum_nonempty e) /\ enum_keys_apart.
@@ -136,11 +136,11 @@ Proof. unfold find_enum. intros H. apply find_some in H. apply H. Qed.
 
 Lemma msg_key_apart m : In m (d_msgs D) -> forall e, In e (d_enums D) -> enum_key e <> msg_key m.
 Proof. intros Hm e He. destruct Hwf as [_ Ha]. apply (Ha e m He Hm). Qed.
-Lemma oneof_key_apart m name j s x d :
-  In m (d_msgs D) -> In (Oneof name j s x d) (m_oneofs m) ->
+Lemma oneof_key_apart m name j x d :
+  In m (d_msgs D) -> In (Oneof name j false x d) (m_oneofs m) ->
   forall e, In e (d_enums D) -> enum_key e <> oneof_key m name.
 Proof.
-  intros Hm Ho e He. destruct Hwf as [_ Ha]. destruct (Ha e m He Hm) as [_ H]. apply (H _ Ho).
+  intros Hm Ho e He. destruct Hwf as [_ Ha]. destruct (Ha e m He Hm) as [_ H]. apply (H _ Ho). reflexivity.
 Qed.
 
 (* ---------------------------------------------------------------- the termination measure *)
@@ -379,15 +379,15 @@ Proof.
 Qed.
 
 Lemma finish_oneofs_ok m : In m (d_msgs D) -> forall exs st,
-  (forall e, In e exs -> exists name j s x d, In (Oneof name j s x d) (m_oneofs m) /\ ex_key e = oneof_key m name) ->
+  (forall e, In e exs -> exists name j x d, In (Oneof name j false x d) (m_oneofs m) /\ ex_key e = oneof_key m name) ->
   Inv st -> Inv (finish_oneofs st exs) /\ ext st (finish_oneofs st exs).
 Proof.
   intros Hm. unfold finish_oneofs. induction exs as [|e r IH]; intros st Hk HI; cbn [fold_left].
   - split; [exact HI|apply ext_refl].
-  - assert (Hr : forall e', In e' r -> exists name j s x d, In (Oneof name j s x d) (m_oneofs m) /\ ex_key e' = oneof_key m name)
+  - assert (Hr : forall e', In e' r -> exists name j x d, In (Oneof name j false x d) (m_oneofs m) /\ ex_key e' = oneof_key m name)
       by (intros e' He'; apply Hk; right; exact He').
     destruct (lookup st (ex_key e)) as [[|[| nm dd ps|]]|] eqn:El; try (apply IH; assumption).
-    destruct (Hk e (or_introl eq_refl)) as (name & j & s & x & d & Hin & Hkey).
+    destruct (Hk e (or_introl eq_refl)) as (name & j & x & d & Hin & Hkey).
     assert (HI1 : Inv (update st (ex_key e) (Linked (ROneof nm dd (ex_props e))))).
     { apply Inv_update_other; [exact HI|]. intros en Hen. rewrite Hkey. eapply oneof_key_apart; eauto. }
     destruct (IH _ Hr HI1) as [H1 H2]. split; [exact H1|]. eapply ext_trans; [apply ext_update|exact H2].
@@ -395,7 +395,7 @@ Qed.
 
 (* the exposed records produced by register_oneofs name real oneofs of the message; fields_loop keeps their keys *)
 Definition exs_named (m : msgd) (exs : list exposed) : Prop :=
-  forall e, In e exs -> exists name j s x d, In (Oneof name j s x d) (m_oneofs m) /\ ex_key e = oneof_key m name.
+  forall e, In e exs -> exists name j x d, In (Oneof name j false x d) (m_oneofs m) /\ ex_key e = oneof_key m name.
 
 Lemma register_oneofs_named m : forall os idx st st1 exs,
   (forall o, In o os -> In o (m_oneofs m)) ->
@@ -409,7 +409,7 @@ Proof.
     destruct (lookup st (oneof_key m name)); [discriminate|].
     destruct (register_oneofs m _ (N.succ idx) r) as [[st2 exs2]|] eqn:E; cbn [rbind] in H; [|discriminate].
     inversion H; subst. intros e [<-|He].
-    + cbn [ex_key]. exists name, jname, false, (Some true), d. split; [apply Hsub; left; reflexivity|reflexivity].
+    + cbn [ex_key]. exists name, jname, (Some true), d. split; [apply Hsub; left; reflexivity|reflexivity].
     + eapply IH; eauto.
 Qed.
 
